@@ -6,6 +6,7 @@ cd "${VERIF_DIR:-/verif}"
 for d in seeded/*/; do
   id=$(basename "$d")
   [ -f "$d/meta.json" ] || continue
+  if [ -n "${SWEEP_FILTER:-}" ] && ! echo "$id" | grep -Eq "$SWEEP_FILTER"; then continue; fi
   grep -q '"detected_by": "obsolete"' "$d/meta.json" && { echo "SWEEP $id obsolete"; continue; }
   grep -q '"detected_by": "not judged' "$d/meta.json" && { echo "SWEEP $id not-judged (stated limitation)"; continue; }
   if grep -q '"detected_by": "not detected' "$d/meta.json"; then
